@@ -194,6 +194,54 @@ def late_driver_stream(res, rng, n):
             break
 
 
+def root_gated_stream(res, rng, n):
+    """the gated clock driver is the HWSystem's OWN driver (passed to the constructor, with or without a clock wire; its enable is a
+    wire of a small holder system driven by the bench): every sequential block of the system inherits it and must hold across every
+    edge at which the enable was 0 and step like an ungated block otherwise"""
+    import py4hw, contextlib, io
+    for i in range(n):
+        r = rng.fork(i)
+        holder = py4hw.HWSystem()
+        en = holder.wire('en', r.choice([1, 1, 2]))
+        with_wire = r.chance(1, 3)
+        drv = py4hw.ClockDriver('gclk', enable=en, wire=(holder.wire('gck') if with_wire else None))
+        drv._verif_enable = en
+        hw = py4hw.HWSystem(clock_driver=drv)
+        w = r.randint(1, 8)
+        d = hw.wire('d', w)
+        qs = [hw.wire(f'q{k}', w) for k in range(r.randint(1, 4))]
+        sub = py4hw.Logic(hw, 'sub') if r.chance(1, 2) else hw
+        prev = d
+        for k, q in enumerate(qs):
+            py4hw.Reg(sub if k % 2 else hw, f'r{k}', prev, q)
+            prev = q
+        with contextlib.redirect_stdout(io.StringIO()):
+            sim = hw.getSimulator()
+        seq = [lf for lf in hw.allLeaves() if lf.isClockable()]
+        log = []
+        summary = dict(design="HWSystem(clock_driver=ClockDriver('gclk', enable=<bench wire>" + (', wire=…' if with_wire else '') + ')) with a register chain',
+                       width=w, registers=len(qs), history=log)
+        for lf in seq:
+            if spec_driver(lf) is not drv:
+                res.fail('a block of a system whose own clock driver is gated does not inherit that driver',
+                         dict(summary, leaf=lf.getFullPath(), driver=str(getattr(spec_driver(lf), 'name', None))))
+        before, after = gating_oracle(res, summary)(hw, seq)
+        n0 = len(res.failures) + len(res.known_hits)
+        for t in range(r.randint(4, 14)):
+            e = r.choice([0, 0, 1, 1, (1 << en.getWidth()) - 1])
+            v = r.bits(w)
+            en.put(e)
+            d.put(v)
+            log.append((e, v))
+            sim.propagateAll()
+            before()
+            sim.clk(1)
+            after()
+            if len(res.failures) + len(res.known_hits) > n0:
+                break
+        res.count(('root-gated', i, w, len(qs), with_wire), nontrivial=True, hist={'root_gated_designs': 1})
+
+
 def main(res, tier, rng, replay):
     import py4hw
     ok, metas, errors, changed = regenerate()
@@ -304,6 +352,7 @@ def main(res, tier, rng, replay):
     except ToolFailure as e:
         res.broken.append(('correspondence', 'net-sim-domains', str(e)[:300]))
     late_driver_stream(res, rng.fork('late-driver'), 40 if tier == 'quick' else 800)
+    root_gated_stream(res, rng.fork('root-gated'), 40 if tier == 'quick' else 800)
     res.cov['rule'] = ('hierarchy stream: random container trees with drivers at random levels (incl. none at the root), real '
                        'getObjectClockDriver and Simulator.clockDrivers grouping vs the Lean model and vs the nearest-ancestor rule; '
                        'designs: seeded multi-domain netlists (gated drivers whose enables are arbitrary design wires incl. registers inside '
